@@ -2591,7 +2591,13 @@ class WorkflowGraph(object):
             variable_substitute(bool): Whether to perform variable substitution, optional for a primitive graph
                 but required for a replicated one
         """
-        concrete = experiment.model.frontends.flowir.FlowIRConcrete(flowir, platform, documents)
+        try:
+            concrete = experiment.model.frontends.flowir.FlowIRConcrete(flowir, platform, documents)
+        except Exception as e:
+            # VV: Malformed FlowIR (e.g. duplicate component ids, references that are not a list of strings) can
+            # trip the FlowIRConcrete constructor - report it just like configurations which load from the disk do
+            raise_with_traceback(experiment.model.errors.ExperimentInvalidConfigurationError(
+                'Errors when loading configuration', experiment.model.errors.FlowIRConfigurationErrors([e], None)))
 
         exp_conf = experiment.model.conf.FlowIRExperimentConfiguration(
             concrete=concrete, path=None, is_instance=False, primitive=primitive, manifest=manifest,
